@@ -6,6 +6,7 @@ import QModel.Perform
 import QModel.WF
 import QModel.Pipeline
 import QModel.Skeleton
+import QModel.Calib
 open Lean Num Nd Arith Cfg Graph Mat
 
 /-! JSON-lines driver: one request per line on stdin, one response per line on stdout. -/
@@ -346,6 +347,22 @@ def getState (j : Json) : Except String Recipe.State := do
   | _ => throw "recipe must be a list"
 
 
+
+def qsvsToJson (qs : Qsvs) : Json :=
+  Json.arr (qs.map fun e => match e.2 with
+    | none => Json.mkObj [("name", Json.str e.1), ("min", Json.null), ("max", Json.null)]
+    | some (mn, mx) => Json.mkObj [("name", Json.str e.1), ("min", fArrToJson mn), ("max", fArrToJson mx)]).toArray
+
+def getSamples (j : Json) : Except String (List Calib.Contents) := do
+  let ss ← j.getObjValAs? (Array Json) "samples"
+  ss.toList.mapM fun smp => do
+    let rows ← match smp with | .arr a => pure a.toList | _ => throw "sample must be a list"
+    rows.mapM fun r => do
+      let name ← r.getObjValAs? String "name"
+      let d ← getFArr (← r.getObjVal? "data")
+      pure (name, d)
+
+
 def okJson (j : Json) : Json := Json.mkObj [("ok", j)]
 def errJson (e : PyErr) : Json := Json.mkObj [("err", Json.str (toString e))]
 def pyToJson {α} (f : α → Json) : PyM α → Json
@@ -464,6 +481,14 @@ def handle (j : Json) : Except String Json := do
                                         ("wf", Json.bool (WF.modelOK m')),
                                         ("skeleton", Json.bool (Skeleton.sameModelSkeleton env.model m'))]
         | .error e => errJson e)
+  | "calibrate" =>
+      let env ← getEnv j
+      let st ← getState j
+      let rx ← rxTable j
+      let prev ← getQsvs j
+      let sgi ← j.getObjValAs? Nat "sg"
+      let samples ← getSamples j
+      pure (pyToJson qsvsToJson (Calib.calibrate rx env st sgi prev samples))
   | _ => throw s!"unknown op {op}"
 
 end Drv
